@@ -3,7 +3,7 @@
    The expected values are written from scratch (sums with [sumZ], "every container limited" with
    [forallb]) and do not mention how the webhook records the amounts or how the hook iterates. *)
 From Coq Require Import List ZArith Bool.
-From Verif Require Import C14.Model.
+From Verif Require Import C14.Model C14.View.
 From Verif Require Export C14.Std.
 Import ListNotations.
 Open Scope Z_scope.
@@ -163,3 +163,18 @@ Definition d10_shape (g : cfg) (cs : list ctr) (o : obs) : bool :=
   negb (prop_code g cs o =? 0)
   && existsb (fun c => negb (listed c)) cs
   && (prop_code g (filter listed cs) (fst o, restrict cs (snd o)) =? 0).
+
+(* ---------- the declaration the node agent is handed ---------- *)
+
+(* A stored pod (View.spod) carries the declared amounts in its spec and in the
+   extended-resource-spec annotation. The property is judged against the pod spec whenever the
+   agent is handed the pod object (reconciler); the runtime-proxy / NRI requests carry labels and
+   annotations only, there the annotation IS the declaration (a container without an entry
+   declares nothing). For a pod admitted by the webhook the two coincide (Proofs_View.handed_synced). *)
+Definition of_entry (e : option ctr) : ctr := match e with Some a => a | None => nothing end.
+Definition handed (recon : bool) (p : spod) : list ctr :=
+  if recon then map fst p else map (fun x => of_entry (snd x)) p.
+
+(* every container is visible in the declaration the pod-level hook sums over *)
+Definition complete (recon : bool) (p : spod) : bool :=
+  if recon then forallb listed (map fst p) else forallb (fun x => isSome (snd x)) p.
